@@ -37,6 +37,8 @@ def gen_graph(rng):
             vars_[nm] = ("lit", v)
         elif r < 0.5:
             vars_[nm] = ("ref", rng.choice(names))                 # may be forward, self or cyclic
+            if rng.random() < 0.15:
+                vars_[nm] = ("ref", vars_[nm][1], rng.choice([" ", "  ", "\t"]))      # a reference with blanks inside the quotes
         elif r < 0.6:
             ev = evaluate(vars_)
             lists = [n for n in defined if ev[n] is not None and isinstance(ev[n][1], list)]      # lists, also through aliases
@@ -117,7 +119,7 @@ def spell(sp):
             return "'" + v + "'" if "'" not in v else '"' + v + '"'
         return str(v)
     if sp[0] == "ref":
-        return f"${sp[1]}"
+        return f"${sp[1]}" if len(sp) < 3 else f'"{sp[2]}${sp[1]}"'
     if sp[0] == "idx":
         return f"${sp[1]}[{sp[2]}]"
     return '"' + sp[1] + '"'
@@ -127,7 +129,7 @@ def json_value(sp):
     if sp[0] == "lit":
         return sp[1]
     if sp[0] == "ref":
-        return f"${sp[1]}"
+        return f"${sp[1]}" if len(sp) < 3 else f"{sp[2]}${sp[1]}"
     if sp[0] == "idx":
         return f"${sp[1]}[{sp[2]}]"
     return sp[1]
@@ -137,13 +139,15 @@ def render(rng, vars_: dict):
     """distribute declarations over root, a nested dict and an included file; returns files, root name, placement"""
     order = list(vars_)
     rng.shuffle(order)
-    place = {nm: rng.choice(["top", "top", "nested", "incl", "inlist"]) for nm in order}
+    place = {nm: rng.choice(["top", "top", "nested", "incl", "inlist", "deep9"]) for nm in order}
     syntax = rng.choice(["native", "native", "json"])
     incl_syntax = rng.choice(["native", "json"])
     top = [nm for nm in order if place[nm] == "top"]
     nested = [nm for nm in order if place[nm] == "nested"]
     inc = [nm for nm in order if place[nm] == "incl"]
     inlist = [nm for nm in order if place[nm] == "inlist"]
+    deep9 = [nm for nm in order if place[nm] == "deep9"]          # inside nine nested dicts: key paths of exactly 10 entries
+    ndeep = 8 if any(vars_[nm][0] == "lit" and isinstance(vars_[nm][1], list) for nm in deep9) else 9   # a list item adds one entry
     lkind = rng.choice(["direct", "deep"])          # the dict is an item of a list / of a list inside a list
     files = {}
     inc_name = "inc.json" if incl_syntax == "json" else "inc"
@@ -162,6 +166,11 @@ def render(rng, vars_: dict):
         if inlist:
             inner = {nm: json_value(vars_[nm]) for nm in inlist}
             d["table"] = [7, inner, 8] if lkind == "direct" else [[1, inner], [2, 3]]
+        if deep9:
+            dd: dict = {nm: json_value(vars_[nm]) for nm in deep9}
+            for lvl in range(ndeep, 0, -1):
+                dd = {f"L{lvl}": dd}
+            d.update(dd)
         files["root.json"] = _json.dumps(d, indent=1)
         root = "root.json"
     else:
@@ -173,6 +182,8 @@ def render(rng, vars_: dict):
             lines.append(f"{nm} {spell(vars_[nm])};\n")
         if nested:
             lines.append("sub\n{\n  deeper\n  {\n" + "".join(f"    {nm} {spell(vars_[nm])};\n" for nm in nested) + "  }\n}\n")
+        if deep9:
+            lines.append("".join(f"L{lvl} {{ " for lvl in range(1, ndeep + 1)) + " ".join(f"{nm} {spell(vars_[nm])};" for nm in deep9) + " }" * ndeep + "\n")
         if inlist:
             inner = "{ " + " ".join(f"{nm} {spell(vars_[nm])};" for nm in inlist) + " }"
             lines.append(f"table ( 7 {inner} 8 );\n" if lkind == "direct" else f"table ( ( 1 {inner} ) ( 2 3 ) );\n")
@@ -219,6 +230,8 @@ def process(ctx: Ctx, cases: list[dict]) -> None:
     sreplies = iter([] if ctx.oracle_only else ctx.driver(sreqs))
     for c, m in zip(cases, replies):
         vars_ = {k: tuple(v) for k, v in c["vars"].items()}
+        nested = [nm for nm in vars_ if c.get("place", {}).get(nm) == "nested"]
+        sm = next(sreplies, None) if nested else None          # consumed here: stays aligned whatever happens below
         exp = evaluate(vars_)
         chained = any(vars_[n][0] in ("ref", "idx", "expr") and exp[n] is not None for n in vars_)
         ctx.case({"files": c["files"]}, chained, tuple(sorted({v[0] for v in vars_.values()})) + (("json",) if c["root"].endswith(".json") else ()))
@@ -257,9 +270,7 @@ def process(ctx: Ctx, cases: list[dict]) -> None:
                 unresolved = [r for r in refs if exp.get(r) is None]
                 if not all(f"${r}" in g for r in unresolved):
                     ctx.violation("an unresolvable reference is not left as its original text", c, {"key": nm, "got": g}, [f"${r}" for r in unresolved]); break
-        nested = [nm for nm in vars_ if c.get("place", {}).get(nm) == "nested"]
         if nested:
-            sm = next(sreplies, None)
             # the same file read with scope=[sub, deeper]: the entries inside the scope hold the same values
             # (references from inside the scope to keys outside it included)
             try:
